@@ -1,5 +1,11 @@
 """Witness for a failed VU-bind clause: the corresponding probe through the real S3Service::call with the recording backend."""
 def find(ctx, oblig, diag):
+    if "streamed_length" in oblig:
+        res = None
+        for case in ("content-length-streamed-longer", "content-length-streamed-shorter"):
+            res = ctx["replay_tool"](["bind", case])
+            if res.get("violates"): res["source"] = "probe request through S3Service::call"; return res
+        return res
     case = ("content-length-buffered" if "already_buffered" in oblig else "content-length-empty" if "empty_body" in oblig
             else "duplicate-query-timestamp" if "timestamp_query" in oblig else "duplicate-header-timestamp" if "timestamp_header" in oblig
             else "duplicate-query" if "query" in oblig else "duplicate-header")
@@ -8,7 +14,7 @@ def find(ctx, oblig, diag):
     return res
 def standing(ctx, oblig, diag):
     res = None
-    for case in ("duplicate-query", "duplicate-header", "duplicate-query-timestamp", "duplicate-header-timestamp"):
+    for case in ("duplicate-query", "duplicate-header", "duplicate-query-timestamp", "duplicate-header-timestamp", "content-length-streamed-longer", "content-length-streamed-shorter"):
         res = ctx["replay_tool"](["bind", case])
         if res.get("violates"): res["source"] = "probe request through S3Service::call"; return res
     return res
